@@ -16,7 +16,7 @@ TRUSTED = [
     "request theorems: Valve, Quake, Unreal 2 (and C04 for the GameSpy 3 challenge); GameSpy, the Minecraft handshake and the default ports of the definitions table are covered by the request oracle on the implementation and by model = implementation",
 ]
 RULE = ("every case compares the full send log of model and implementation; valid Spec-generated exchanges with 0-3 challenge rounds per request and stratified challenge bytes "
-        "{00,0a,41,5c,ff,fe,01,80}^4 plus random, all engines, ports 27015-27019, plus mutated scripts; Quake, Unreal 2, GameSpy 1/2/3 requests and GameSpy 3 challenges (0, negatives, i32 extremes); every UDP game of the definitions table through the generic entry point with the port given / omitted, and through its own module with the port omitted (both must use the same default port); the Minecraft Java handshake with host name / protocol version settings; the requests of every attempt after a lost datagram or a failed send (GameSpy 1/2/3, JC2-MP, Mindustry, Bedrock, retries 1..3); the request oracle walks the observed trace against the script; "
+        "{00,0a,41,5c,ff,fe,01,80}^4 plus random, all engines, ports 27015-27019, plus mutated scripts; Quake, Unreal 2, GameSpy 1/2/3 requests and GameSpy 3 challenges (0, negatives, i32 extremes); every UDP game of the definitions table through the generic entry point with the port given / omitted, and through its own module with the port omitted (both must use the same default port); the games-level Minecraft functions with the port omitted (Java / legacy TCP 25565, Bedrock UDP 19132); the Minecraft Java handshake with host name / protocol version settings; the requests of every attempt after a lost datagram or a failed send (GameSpy 1/2/3, JC2-MP, Mindustry, Bedrock, retries 1..3); the request oracle walks the observed trace against the script; "
         "non-trivial = at least one challenge was echoed; distinct by case bytes")
 
 
@@ -91,6 +91,11 @@ def gen_cases(tier, rng):
         if module:
             cases.append({"id": "modport/%s" % g["id"], "hex": C14.paths_case(g["id"], module, None, {"retries": 0}, []),
                           "meta": {"stream": "module-default-port", "game": g["id"], "events": [], "tags": {}}})
+    # the games-level Minecraft functions with the port omitted: every variant on its own default port (Java / legacy TCP 25565, Bedrock UDP 19132)
+    import C03
+    for c in C03.module_port_rows(tier, rng, [], [], []):
+        c["meta"].update({"stream": "minecraft-module-default-port", "events": [], "tags": {}})
+        cases.append(c)
     cases += minecraft_extra_cases(tier, rng, r)
     # the requests of an attempt that follows a lost datagram or a failed send (retries 1..3): every attempt sends the same
     # requests as the first one, whatever went wrong before
@@ -172,6 +177,9 @@ QUAKE_REQ = {1: "ffffffff73746174757300", 2: "ffffffff73746174757300", 3: "fffff
 
 
 def oracle(case, impl, side):
+    if case["meta"]["stream"] == "minecraft-module-default-port":
+        import C03
+        return C03.oracle({"meta": dict(case["meta"], stream="module-default-port")}, impl, side)
     if case["meta"]["stream"] == "module-default-port":
         if "paths=DIFF" in side and "d!=" in side:
             return ("default-port:" + case["meta"]["game"],
